@@ -557,6 +557,78 @@ func c07AllocEdge(c *rt.Ctx, sub0 int) {
 	c.NonTrivialEnum(int64(sub - sub0))
 }
 
+// c07OddMapKeys decodes objects into maps whose key types are everything reflect can build a map
+// from (pointers, pointer chains, floats, arrays, structs, bool, interface{}, text unmarshalers):
+// whatever the verdict, the destination must stay a value that reflect and the collector can walk.
+func c07OddMapKeys(c *rt.Ctx, sub0 int) {
+	keys := []reflect.Type{reflect.TypeOf((*int)(nil)), reflect.TypeOf((*string)(nil)), reflect.TypeOf((**int)(nil)), reflect.TypeOf((*bool)(nil)), reflect.TypeOf((*float64)(nil)),
+		reflect.TypeOf((*uint8)(nil)), reflect.TypeOf((*gojson.Number)(nil)), reflect.TypeOf((*interface{})(nil)), reflect.TypeOf(float64(0)), reflect.TypeOf([2]int{}), reflect.TypeOf(struct{ A int }{}),
+		reflect.TypeOf(true), reflect.TypeOf(int8(0)), reflect.TypeOf(uint64(0)), reflect.TypeOf((*interface{})(nil)).Elem(), reflect.TypeOf((*zoo.UT)(nil)), reflect.TypeOf(zoo.UTS("")), reflect.TypeOf(gojson.Number(""))}
+	vals := []reflect.Type{reflect.TypeOf(""), reflect.TypeOf(0), reflect.TypeOf([]int{})}
+	docs := []string{`{"1":"a"}`, `{"1":1}`, `{"1":[1,2]}`, `{"k":"a","":"b"}`, `{"true":"x","false":"y"}`, `{"1.5":"f"}`, `{"-7":7,"8":8}`, `{"[1,2]":"arr"}`, `{"null":"n"}`, `{"{\"A\":1}":"s"}`, `{}`, `null`,
+		`{"123456789012345678901234567890":"big"}`, `{"1":"a","1":"b"}`}
+	sub := sub0
+	for _, kt := range keys {
+		for vi, vt := range vals {
+			mt := reflect.MapOf(kt, vt)
+			for di, doc := range docs {
+				if (vi+di)%3 != 0 && vi != 0 {
+					continue
+				}
+				sub++
+				if !c.Cur(sub, "shapes=core\ntype: "+mt.String()+"\ndoc: "+doc) {
+					continue
+				}
+				for _, stream := range []bool{false, true} {
+					dst := reflect.New(mt)
+					var err error
+					pan, msg, frame := rt.Guard(func() {
+						if stream {
+							err = gojson.NewDecoder(strings.NewReader(doc)).Decode(dst.Interface())
+						} else {
+							err = gojson.Unmarshal([]byte(doc), dst.Interface())
+						}
+					})
+					c.Eval(1)
+					if pan {
+						c.Obs("panics_seen_judged_by_C06", 1)
+						_, _ = msg, frame
+						continue
+					}
+					// the collector must be able to scan the map, and reflect to walk it
+					runtime.GC()
+					if m := wellFormed(dst.Elem(), 0); m != "" {
+						c.Violate(rt.Violation{Monitor: "well-formed", Entry: "Unmarshal", Kind: "malformed-value", Ctx: "map-key:" + kt.Kind().String(), Detail: mt.String() + " from " + doc + ": " + m, Sub: sub})
+					}
+					// a pointer key must point to a value of its own: reading it, writing it back and
+					// comparing it with the key text must work (a pointer made from the number, or
+					// pointing into the input copy, faults or shows foreign bytes here)
+					if err == nil && kt.Kind() == reflect.Ptr && dst.Elem().Len() == 1 && di < 3 {
+						k := dst.Elem().MapKeys()[0]
+						e := k
+						for e.Kind() == reflect.Ptr && !e.IsNil() {
+							e = e.Elem()
+						}
+						if e.Kind() != reflect.Ptr {
+							cp := reflect.New(e.Type()).Elem()
+							cp.Set(e)
+							e.Set(cp)
+							got := fmt.Sprint(e.Interface())
+							if e.Kind() == reflect.Uint8 || e.Kind() == reflect.Int || e.Kind() == reflect.Float64 || e.Kind() == reflect.String {
+								if got != "1" {
+									c.Violate(rt.Violation{Monitor: "well-formed", Entry: "Unmarshal", Kind: "pointer-key-points-to-foreign-memory", Ctx: "map-key:" + kt.String(), Detail: mt.String() + " from " + doc + ": the key points to " + rt.Q([]byte(got)) + ", not to 1", Sub: sub})
+								}
+							}
+						}
+					}
+					c.Obs("odd_map_key_decodes", 1)
+				}
+				c.NonTrivial("oddkey", mt.String(), doc)
+			}
+		}
+	}
+}
+
 func init() {
 	register(&Prop{
 		ID: "C07",
@@ -622,6 +694,9 @@ func init() {
 				}
 				if k == 11 && c.Idx%64 == 1 {
 					c07StringOpt(c, 300000)
+				}
+				if k == 11 && c.Idx%64 == 2 {
+					c07OddMapKeys(c, 500000)
 				}
 				if k == 0 {
 					c.Sample(map[string]any{"type": t.String(), "docs": len(docs), "example_doc": docs[len(docs)/2][0], "fields": descs})
